@@ -94,6 +94,8 @@ def run(ctx):
     chk.rule('T7', 'a value is unquoted only when its first and last character are the same quote character', floor=2)
     chk.rule('T4', 'length parser: every non-default return passes both clamps, limits come from it with the documented '
                    'bounds, no overflowing arithmetic on the converted number', floor=3)
+    chk.rule('T9', 'output = NAME without ":" configures NAME with an empty argument: on every path where no separator was '
+                   'found and the name is a known output, the last value stored into output_arg is the empty literal', floor=1)
     chk.rule('T5', 'isolation: a foreign section or unknown name returns from the callback without touching the '
                    'configuration; configuration fields are only written by parsers, defaults, destructor and loader', floor=3)
     chk.rule('T6', 'defaults are total: setDefaults assigns every field of the configuration record', floor=15)
@@ -230,6 +232,8 @@ def run(ctx):
                    '%s also accepts leading white space and a sign, and its input %s: "-1" or " 300" are then taken as '
                    'numbers (a negative one wraps to the maximum) instead of leaving the default' % (c['callee'], why),
                    how=why)
+    # ---- T9: "output = NAME" without ":" means an empty argument --------------------------------------------
+    output_without_argument_rule(ctx, prog)
     # ---- T5 --------------------------------------------------------------------------------------
     sec = [c for c in CB.calls('strcmp') if any(strip(a).k == 'StringLiteral' and strip(a).get('s') == 'snoopy' for a in c.ch[1:])]
     ok = len(sec) == 1
@@ -396,9 +400,61 @@ def sentinel_rule(ctx, prog):
                how='every row use follows a test that the row name differs from "" for the current index')
 
 
+def _ini_value_functions(prog):
+    """the INI line parser and the static helpers of its translation unit it reaches (a clean-up helper
+    extracted from it is still the same rule's subject)"""
+    P = prog.require_func('snoopy_ini_parse_stream')
+    out, todo = [P], [P]
+    while todo:
+        f = todo.pop()
+        for c in f.calls():
+            t = prog.func(c.get('callee'), f.tu) if c.get('callee') else None
+            if t is not None and t.tu is P.tu and t not in out:
+                out.append(t)
+                todo.append(t)
+    return out
+
+
 def quote_rule(ctx, prog):
     chk = ctx.chk
-    P = prog.require_func('snoopy_ini_parse_stream')
+    n = 0
+    for P in _ini_value_functions(prog):
+        n += _quote_rule_in(chk, P, n)
+    if n == 0:
+        raise AnalysisBroken('no quote-stripping store found in snoopy_ini_parse_stream or its helpers')
+    comment_before_trim_rule(ctx, prog)
+
+
+def comment_before_trim_rule(ctx, prog):
+    """inline comments: find_chars_or_comment(value, NULL) recognises ';' only behind white space, so it has
+    to look at the value BEFORE its leading white space is skipped ("key = ; note" is an empty value)"""
+    chk = ctx.chk
+    n = 0
+    for P in _ini_value_functions(prog):
+        scans = [c for c in P.calls('find_chars_or_comment') if len(c.ch) > 2 and
+                 (strip(c.ch[2]).get('null') or strip(c.ch[2]).get('v') == 0)]
+        for sc in scans:
+            v = decl_of(arg(sc, 0))
+            if v is None:
+                continue
+            n += 1
+            # a skip of leading white space on the same variable that can run before the scan
+            early = []
+            for lk in P.calls('lskip'):
+                if (decl_of(arg(lk, 0)) or {}).get('id') != v['id']:
+                    continue
+                if not C.always_preceded(P, lk, lambda e: e.id == sc.id):
+                    early.append(lk)
+            chk.ob('T7', 'inline-comment-cut-before-trim[%s]' % P.name, not early, (early[0] if early else sc).where(), P.name,
+                   'the leading white space of the value is skipped (%s) before the inline-comment scan: a ";" is only a '
+                   'comment behind white space, so "key = ; note" now yields the value "; note" instead of the empty '
+                   'string' % (render(early[0])[:40] if early else ''),
+                   how='%s precedes every lskip of the value' % render(sc)[:50])
+    if n == 0:
+        raise AnalysisBroken('no inline-comment scan (find_chars_or_comment(value, NULL)) found in the INI parser')
+
+
+def _quote_rule_in(chk, P, n0):
     # stores that cut the last character of `value`
     n = 0
     for st in P.body.walk():
@@ -412,11 +468,30 @@ def quote_rule(ctx, prog):
         if base is None or not is_last_index(P, idx, base['id']):
             continue
         n += 1
+
+        def end_of(t):
+            if t.k == 'UnaryOperator' and t['op'] == '*' and (decl_of(t.ch[0]) or {}).get('id') == base['id']:
+                return 'first'
+            if t.k == 'ArraySubscriptExpr' and (decl_of(t.ch[0]) or {}).get('id') == base['id']:
+                i2 = strip(t.ch[1])
+                if i2.get('v') == 0:
+                    return 'first'
+                if is_last_index(P, i2, base['id']):
+                    return 'last'
+            return None
         # equality tests whose TRUE edge dominates the store
         firsts, lasts = set(), set()
+        last_equals_first = False
         for b in P.blocks.values():
             c = strip(b.cond) if b.cond is not None else None
             if c is None or len(b.all_succs) != 2 or c.k != 'BinaryOperator' or c['op'] != '==':
+                continue
+            el = C.cfg_elem_of(P, st)
+            visited, _ = C.reach(P, (P.entry, 0), None, edge_filter=lambda bb, si, b=b: not (bb.id == b.id and si == 0))
+            dominates = el.id not in visited
+            ends = [end_of(strip(x)) for x in c.ch]
+            if set(ends) == {'first', 'last'}:
+                last_equals_first = last_equals_first or dominates
                 continue
             k = [strip(x).get('v') for x in c.ch if strip(x).get('v') is not None and strip(x).k != 'DeclRefExpr']
             if not k:
@@ -424,31 +499,37 @@ def quote_rule(ctx, prog):
             tgt = [strip(x) for x in c.ch if strip(x).get('v') is None]
             if not tgt:
                 continue
-            t = tgt[0]
-            which = None
-            if t.k == 'UnaryOperator' and t['op'] == '*' and (decl_of(t.ch[0]) or {}).get('id') == base['id']:
-                which = 'first'
-            elif t.k == 'ArraySubscriptExpr' and (decl_of(t.ch[0]) or {}).get('id') == base['id']:
-                i2 = strip(t.ch[1])
-                if i2.get('v') == 0:
-                    which = 'first'
-                elif is_last_index(P, i2, base['id']):
-                    which = 'last'
+            which = end_of(tgt[0])
             if which is None:
                 continue
-            # does the true edge dominate the store?
-            el = C.cfg_elem_of(P, st)
-            visited, _ = C.reach(P, (P.entry, 0), None, edge_filter=lambda bb, si, b=b: not (bb.id == b.id and si == 0))
-            if el.id not in visited:
+            if dominates:
                 (firsts if which == 'first' else lasts).add(k[0])
         same = firsts & lasts
-        chk.ob('T7', 'unquote-needs-matching-pair[%d]' % n, bool(same), st.where(), P.name,
+        # `last == first` together with a test that the first character is a quote gives the same guarantee
+        quote_first = last_equals_first and _first_char_is_quote_on_all_paths(P, st, base['id'])
+        chk.ob('T7', 'unquote-needs-matching-pair[%d]' % (n0 + n), bool(same) or quote_first, st.where(), P.name,
                'the closing character is cut off on a path where the first character is known to be one of %s and the '
                'last one of %s: a value that opens with one quote character and ends with the other (or any accepted '
                'mix) loses both ends' % (sorted(map(chr, firsts)) or 'nothing', sorted(map(chr, lasts)) or 'nothing'),
-               how='both ends equal %s on every path to the cut' % sorted(map(chr, same)))
-    if n == 0:
-        raise AnalysisBroken('no quote-stripping store found in snoopy_ini_parse_stream')
+               how='both ends equal %s on every path to the cut' % (sorted(map(chr, same)) if same else 'each other, the first being a quote'))
+    return n
+
+
+def _first_char_is_quote_on_all_paths(P, store, base_id):
+    """every path to `store` has seen *base == '"' or *base == '\'' succeed"""
+    def quote_edge(blk):
+        c = strip(blk.cond) if blk.cond is not None else None
+        if c is None or len(blk.all_succs) != 2 or c.k != 'BinaryOperator' or c['op'] not in ('==',):
+            return None
+        ks = [strip(x).get('v') for x in c.ch if strip(x).get('v') is not None]
+        ts = [strip(x) for x in c.ch if strip(x).get('v') is None]
+        if not ks or not ts or ks[0] not in (34, 39):
+            return None
+        t = ts[0]
+        first = (t.k == 'UnaryOperator' and t['op'] == '*' and (decl_of(t.ch[0]) or {}).get('id') == base_id) or \
+            (t.k == 'ArraySubscriptExpr' and (decl_of(t.ch[0]) or {}).get('id') == base_id and strip(t.ch[1]).get('v') == 0)
+        return 0 if first else None
+    return common.guarded_at(P, store, quote_edge, lambda e: common.modifies_var(e, base_id))
 
 
 def digits_only_input(P, call):
@@ -538,3 +619,64 @@ def _const_param(call, i):
     from engine.statics import _pointee_const
     pt = call.get('calleeParamTypes') or []
     return i < len(pt) and _pointee_const(pt[i])
+
+
+def output_without_argument_rule(ctx, prog):
+    chk = ctx.chk
+    PV = prog.func('snoopy_configfile_parseValue_output')
+    if PV is None:
+        raise AnalysisBroken('snoopy_configfile_parseValue_output not found')
+    seps = [c for c in PV.calls() if c.get('callee') in ('strchr', 'strstr', 'strpbrk', 'index') and
+            any(strip(a).get('v') == 58 or (strip(a).k == 'StringLiteral' and strip(a).get('s') == ':') for a in c.ch[2:])]
+    if len(seps) != 1:
+        raise AnalysisBroken('the output option parser does not look for the ":" separator exactly once (%d searches)' % len(seps))
+    sep = seps[0]
+    hv = common.holder(PV, sep)
+    if hv is None:
+        raise AnalysisBroken('the result of %s is not kept in a variable' % render(sep))
+    pos = C.elem_positions(PV)
+    el = C.cfg_elem_of(PV, sep)
+    b0, i0 = pos[el.id]
+    blk = PV.blocks[b0]
+    j = i0
+    for k in range(i0, len(blk.elems)):
+        if any(x is sep for x in blk.elems[k].walk()):
+            j = k
+    known = [c for c in PV.calls('snoopy_outputregistry_doesNameExist')]
+    TRUE = common.macro_value(ctx.repo, 'SNOOPY_TRUE')
+    known_edges = {}
+    for c in known:
+        isx = common.is_result_of(PV, c)
+        for b in common.blocks_testing(PV, isx):
+            ce = common.compare_edges(b, isx)
+            if ce is not None:
+                v, eq, ne = ce
+                known_edges[b.id] = eq if v == TRUE else (ne if v == 0 else None)
+    if not known_edges:
+        raise AnalysisBroken('the output option parser does not test snoopy_outputregistry_doesNameExist')
+
+    def store_arg(e):
+        return e.k == 'BinaryOperator' and e.get('op') == '=' and strip(e.ch[0]).k == 'MemberExpr' and \
+            strip(e.ch[0]).get('member') == 'output_arg'
+    # only the paths on which the name is a known output
+    paths = common.explore_paths(PV, (PV.entry, 0), {}, store_arg, force={blk.elems[j].id: (hv, 0)},
+                                 edge_ok=lambda blk, k: not (blk.id in known_edges and known_edges[blk.id] is not None and k != known_edges[blk.id]))
+    bad = None
+    n = 0
+    for ev in paths:
+        n += 1
+        if not ev:
+            bad = ('nothing is stored into output_arg after the separator search: it keeps the compiled-in default '
+                   'argument (--with-default-output=NAME:ARG builds) or the argument of an earlier occurrence', sep)
+            break
+        r = strip(ev[-1].ch[1])
+        lit_empty = r.k == 'StringLiteral' and r.get('s') == '' and not (r.get('macro') or ev[-1].ch[1].get('macro'))
+        if not lit_empty:
+            mac = r.get('macro') or ev[-1].ch[1].get('macro')
+            bad = ('the last value stored into output_arg is %s, not the empty literal' % (
+                ('the configure-time default %s (empty only in a build without --with-default-output=NAME:ARG)' % mac)
+                if mac else render(r)[:40]), ev[-1])
+            break
+    chk.ob('T9', 'output-without-argument-gets-empty-argument', bad is None and n > 0, (bad[1] if bad else sep).where(), PV.name,
+           'for "output = NAME" (no ":") with a known NAME: %s' % (bad[0] if bad else 'no path found'),
+           how='%d path(s) under "no separator found" and "known output name" all end with output_arg = ""' % n)
